@@ -20,7 +20,7 @@ for pid in sys.argv[2:]:
     if not os.path.isdir(wt):
         subprocess.check_call(['git', '-C', '/repo', 'worktree', 'add', '--detach', '-q', wt, 'HEAD'])
         subprocess.check_call(['cp', '/repo/Cargo.lock', wt + '/']) if os.path.exists('/repo/Cargo.lock') and not os.path.exists(wt + '/Cargo.lock') else None
-        subprocess.check_call(['cp', '-a', '/repo/target', wt + '/target'])
+        subprocess.check_call(['rsync', '-a', '--exclude', 'incremental/', '--exclude', 'deps/rnacos-*', '--exclude', 'deps/librnacos-*', '--exclude', 'deps/lib-*', '/repo/target/', wt + '/target/'])
     s = tpl.replace('{WT}', wt).replace('{AVOID}', avoid).replace('{PROP}', json.dumps(props[pid], indent=1))
     open('/tmp/wt/prompt_S%s%s.txt' % (rnd, pid), 'w').write(s)
     print(pid, wt, len(s))
